@@ -36,10 +36,10 @@ CHECKS = {
    text="Exploration. The token stream of every generated input in all six modes is recorded through the accessor (class, offset, length, value, scan offset before/after) and checked against the slice / order / progress / end-of-scan inequalities.",
    note="Accessor loop = the loop the repository's own token fixtures use.", ref="6 C16"),
  "C17": dict(technique="runtime monitoring: trace-invariant checker plus first-terminator oracle over exhaustively enumerated construct bodies",
-   text="Exploration. Generic range/order/count inequalities on every HTML token trace from all five contexts; for each delimited construct every body over {terminator bytes, NUL, filler, '<'} up to length 6 (thorough 9) behind three text prefixes is compared (offset, length, resume offset) with a first-terminator oracle written from the property text.",
+   text="Exploration. Generic range/order/count inequalities on every HTML token trace from all five contexts; for each delimited construct every body over {terminator bytes, NUL, filler, '<'} up to length 6 (thorough 10) behind three text prefixes is compared (offset, length, resume offset) with a first-terminator oracle written from the property text.",
    note="Oracle is a direct transcription of the property statement.", ref="6 C17"),
  "C18": dict(technique="runtime monitoring: first-terminator oracle over exhaustively enumerated literal bodies, all literal forms and all 223 q-delimiters",
-   text="Exploration. For 19 literal forms x bodies over {delimiter, backslash, x, other quote} up to length 7 (thorough 10), periodic bodies U.V.U.V, every q-quote delimiter byte >= 33, dollar quotes, and literals embedded in random SQL, the string token (content start/end from the scan offset, closed?, marks, resume offset) is compared with a transcription of the property's terminator rules.",
+   text="Exploration. For 19 literal forms x bodies over {delimiter, backslash, x, other quote} up to length 7 (thorough 11), periodic bodies U.V.U.V, every q-quote delimiter byte >= 33, dollar quotes, and literals embedded in random SQL, the string token (content start/end from the scan offset, closed?, marks, resume offset) is compared with a transcription of the property's terminator rules.",
    note="Oracle independent of the implementation; token records via accessor.", ref="6 C18"),
  "C20": dict(technique="runtime inspection of live data structures at a quiescent point against predicates and a pinned snapshot",
    text="Exploration (finite space, enumerated completely: exhaustive=true). All entries of the five live tables are read after package initialisation and checked for well-formedness; every entry of the pinned baseline snapshot must be present with the same classification and is exercised through the real look-up.",
